@@ -43,8 +43,44 @@ def shard_groups(cases, nshards):
     return [s for s in shards if s]
 
 
-def run_layout_cases(work, driver, props, cases, tag="main", budget_ms=10000, mem_mb=1024, nshards=None,
-                     keep_all_cases=False, post_trace=None):
+PROC_OFFSET = 10000000
+HEAD_RE = None
+
+
+def merge_process_traces(d, procs):
+    """trace.ndjson + trace1.ndjson ... -> trace.ndjson, group by group: the records of process k follow those of
+    process k-1 within each relational group, with case ids shifted by k*PROC_OFFSET and rel "ref" turned into "same"."""
+    import re
+    head = re.compile(r'^\{"ev":"(\w+)","case":(-?\d+),"g":(-?\d+)')
+    per = []
+    for k in range(procs):
+        path = os.path.join(d, "trace.ndjson" if k == 0 else "trace%d.ndjson" % k)
+        groups = []   # list of (g, [lines])
+        with open(path) as fh:
+            for line in fh:
+                m = head.match(line)
+                if not m:
+                    raise HarnessError("unparsable trace line in " + path)
+                ev, cid, g = m.group(1), int(m.group(2)), int(m.group(3))
+                if k > 0:
+                    line = '{"ev":"%s","case":%d,"g":%d' % (ev, cid + k * PROC_OFFSET, g) + line[m.end():]
+                    if ev == "Call":
+                        line = line.replace('"rel":"ref"', '"rel":"same"', 1)
+                if ev == "Call" and (not groups or g == 0 or groups[-1][0] != g):
+                    groups.append((g, []))
+                groups[-1][1].append(line)
+        per.append(groups)
+    n = len(per[0])
+    if any(len(p) != n for p in per):
+        raise HarnessError("process traces have different group structure in " + d)
+    with open(os.path.join(d, "trace.ndjson"), "w") as out:
+        for i in range(n):
+            for k in range(procs):
+                out.writelines(per[k][i][1])
+
+
+def run_layout_cases(work, driver, props, cases, tag="main", budget_ms=2500, mem_mb=400, nshards=None,
+                     keep_all_cases=False, post_trace=None, procs=1):
     """cases: list of case dicts (ids are assigned here). Returns Result."""
     res = Result()
     for i, c in enumerate(cases):
@@ -66,8 +102,15 @@ def run_layout_cases(work, driver, props, cases, tag="main", budget_ms=10000, me
     t0 = time.time()
 
     def run(d):
-        return core.run_cases(driver, "run", os.path.join(d, "cases.ndjson"), os.path.join(d, "trace.ndjson"),
-                              budget_ms=budget_ms, mem_mb=mem_mb)
+        ab = core.run_cases(driver, "run", os.path.join(d, "cases.ndjson"), os.path.join(d, "trace.ndjson"),
+                            budget_ms=budget_ms, mem_mb=mem_mb)
+        for k in range(1, procs):
+            # the same cases again in a fresh process; merged group by group into one trace
+            ab += core.run_cases(driver, "run", os.path.join(d, "cases.ndjson"), os.path.join(d, "trace%d.ndjson" % k),
+                                 budget_ms=budget_ms, mem_mb=mem_mb)
+        if procs > 1:
+            merge_process_traces(d, procs)
+        return ab
     for ab in core.pmap(run, dirs):
         res.aborts.extend(ab)
     t1 = time.time()
@@ -86,14 +129,31 @@ def run_layout_cases(work, driver, props, cases, tag="main", budget_ms=10000, me
         res.states += dist
         res.transitions += gen
         for v in viols:
-            cid = v[0]
+            cid = v[0] % PROC_OFFSET
             clauses = v[1]
             res.violations.append(dict(case=cid, clauses=clauses, where=v[2] if len(v) > 2 else None,
                                        msg=v[3] if len(v) > 3 else None))
-    if res.stats["calls"] != len(cases):
+    if res.stats["calls"] != len(cases) * procs:
         raise HarnessError("trace validation consumed %d calls, %d cases were issued" % (res.stats["calls"], len(cases)))
     res.cases = byid
     return res
+
+
+def merge_results(a, b):
+    """b's case ids are shifted behind a's"""
+    off = max(a.cases) if a.cases else 0
+    for cid, c in b.cases.items():
+        c["case"] = cid + off
+        a.cases[cid + off] = c
+    for v in b.violations:
+        a.violations.append(dict(v, case=v["case"] + off))
+    for k in a.stats:
+        a.stats[k] += b.stats[k]
+    a.states += b.states
+    a.transitions += b.transitions
+    a.aborts.extend(b.aborts)
+    a.ncases += b.ncases
+    return a
 
 
 def report(prop, res, known, tier, seed, extra_cov, assumptions, t0, rule, samples_extra=None, level_models=None):
@@ -108,6 +168,8 @@ def report(prop, res, known, tier, seed, extra_cov, assumptions, t0, rule, sampl
             p, clause = pc[0], pc[1]
             if p != prop:
                 continue
+            if clause.startswith("HARNESS_"):
+                raise HarnessError("%s on case %s" % (clause, json.dumps(core.case_signature(case), separators=(",", ":"))))
             f = core.match_known(known, p, clause, case, v.get("where"))
             if f is not None:
                 known_hits.setdefault(f["id"], [f, 0])[1] += 1
@@ -115,10 +177,17 @@ def report(prop, res, known, tier, seed, extra_cov, assumptions, t0, rule, sampl
             new_viol.append((v, clause, case))
     byclause = {}
     for v, clause, case in new_viol:
-        byclause[clause] = byclause.get(clause, 0) + 1
+        k = "%s/%s/%s/%s/%s" % (clause, case.get("p1"), case.get("p2"), case.get("p4"), case.get("p5")) if os.environ.get("VERIF_BREAKDOWN") else clause
+        byclause[k] = byclause.get(k, 0) + 1
     if byclause:
         log("[%s] violations by clause: %s" % (prop, json.dumps(byclause, sort_keys=True)))
     log("[%s] stats: %s states=%d" % (prop, json.dumps(res.stats, sort_keys=True), res.states))
+    ab = {}
+    for a in res.aborts:
+        k = "%s@%s" % (a["kind"], a["where"])
+        ab[k] = ab.get(k, 0) + 1
+    if ab:
+        log("[%s] process aborts (judged by C01): %s" % (prop, json.dumps(ab, sort_keys=True)))
     for fid, (f, n) in sorted(known_hits.items()):
         print("KNOWN-FINDING: property=%s %s (%s; observed %d times in this run)" % (prop, f["what"], fid, n))
     seen_sig = set()
